@@ -31,9 +31,9 @@
                          yield (219-222)
     * stream ends      → EOF, ClientConnectionError, (inactivity/client/server) timeouts are swallowed
                          by `watch_objs` (285-289): the `while` re-watches since the same `since`
-    * watch request    → ClientConnectionError/TimeoutError swallowed the same way; 429 → `infinite_watch`
-                         swallows → backoff → re-list; HTTP 410 (too old) and every other API error
-                         propagate out of `infinite_watch`
+    * watch request    → ClientConnectionError/TimeoutError swallowed the same way; 429 and HTTP 410 (too
+                         old) → `infinite_watch` swallows (`except APIClientError: if ex.status != 410: raise`)
+                         → backoff → re-list; every other API error propagates out of `infinite_watch`
     * pause noticed    → the response is closed by the waiter's callback; the `while` ends; `return`;
                          after the backoff `streaming_block` blocks until un-paused; then a new
                          `continuous_watch`, i.e. a fresh listing
@@ -70,7 +70,7 @@ inductive Drop where
 
 inductive RaiseKind where
   | unknownError   -- WatchingError (an ERROR event that is not 410)
-  | gone           -- APIClientError 410 on the watch request
+  | gone           -- APIClientError 410 on the watch request (no longer raised since kopf e006454; kept for the driver's vocabulary)
   | fatal          -- other APIError out of a request
   | garbage        -- a line that is not JSON (ValueError out of `api.stream`)
   deriving DecidableEq, Repr
@@ -192,7 +192,7 @@ def step (w : World) : Act → World
           let w1 := { emit w (.listed w.srv :: items.reverse) with since := w.srv, listRv := w.srv }
           rewatch w1
       | .connecting =>
-          if decide (w.since < w.horizon) && w.http410 then fail w .gone
+          if decide (w.since < w.horizon) && w.http410 then toBackoff w   -- HTTP 410: APIClientError(410) swallowed by `infinite_watch`
           else if w.pauseSeen then toBackoff w                        -- `if stopper.done(): response.close(); return`
           else if decide (w.since < w.horizon) then toBackoff w       -- the stream is one ERROR 410 line: `return`
           else { w with phase := .streaming }
